@@ -744,7 +744,9 @@ class Ranges:
         if c[1][0] == 'call' and str(c[1][1]).endswith('Iterator::collect'):
             # xs.iter().copied().collect(): as many elements as xs has (no adaptor that drops or adds any)
             ct = self.B.blocks[c[1][2]]['t']
-            src = self._iter_source(ct['args'][0]) if ct.get('args') else None
+            # only into a Vec: a set or a map may drop duplicates
+            dst_ty = self.B.local_ty(ct['dst']['l']) if not ct['dst'].get('p') else ''
+            src = self._iter_source(ct['args'][0]) if ct.get('args') and dst_ty.startswith('alloc::vec::Vec<') else None
             if src is not None:
                 return ('len', src)
             return None
